@@ -276,6 +276,45 @@ def _gauge_operands(c, L, ck, r):
 
 op('orbital_gauge_transform')((_gauge_operands, lambda h, u: ptn.molecular_hamiltonian_orbital_gauge_transform(h, u, 1)))
 
+# constructors called again after their first result was modified in place: no state may leak between calls
+CTOR_CALLS = {
+    'ising': lambda L: ptn.ising_mpo(L, 1.0, 0.3, 0.7),
+    'xxz': lambda L: ptn.heisenberg_xxz_mpo(L, 1.0, 0.7, 0.2),
+    'xxz_spin1': lambda L: ptn.heisenberg_xxz_spin1_mpo(L, 1.0, 0.7, 0.2),
+    'bose': lambda L: ptn.bose_hubbard_mpo(3, L, 0.8, 1.5, 0.2),
+    'fermi_hubbard': lambda L: ptn.fermi_hubbard_mpo(L, 1.0, 2.5, 0.3),
+    'linear_fermionic': lambda L: ptn.linear_fermionic_mpo([0.7, -0.4, 1.1][:L], 'a'),
+    'molecular_opt': lambda L: ptn.molecular_hamiltonian_mpo(np.arange(16.).reshape(4, 4) / 7, np.arange(256.).reshape(4, 4, 4, 4) / 90, optimize=True),
+    'molecular_explicit': lambda L: ptn.molecular_hamiltonian_mpo(np.arange(16.).reshape(4, 4) / 7, np.arange(256.).reshape(4, 4, 4, 4) / 90, optimize=False),
+    'spin_molecular': lambda L: ptn.spin_molecular_hamiltonian_mpo(np.arange(4.).reshape(2, 2) / 3, np.arange(16.).reshape(2, 2, 2, 2) / 9, optimize=bool(L % 2)),
+    'identity': lambda L: MPO.identity(np.array([0, 1]), L),
+}
+
+
+def run_ctor_case(case, ctx):
+    _, name, L = case
+    ctx.cls('ctor_twice:' + name)
+    ctx.nontrivial = True
+    with warnings.catch_warnings():
+        warnings.simplefilter('ignore')
+        r1 = CTOR_CALLS[name](L)
+        s1 = snap(r1)
+        # every follow-up mutation of the first result, then a second call
+        for mname, m in mutations_for(r1):
+            r = CTOR_CALLS[name](L)
+            m(r)
+            r2 = CTOR_CALLS[name](L)
+            ctx.calls += 2
+            if not ctx.check(snap(r2) == s1, f'{name}:second_call_unaffected_by_mutation_of_first_result', mname):
+                return
+
+
+def _ctor_cases():
+    for name in CTOR_CALLS:
+        for L in (1, 2, 3):
+            yield ['ctor', name, L]
+
+
 # in-place algorithms: only the documented target may change
 op('orthonormalize_left', inplace=('psi',))((lambda c, L, ck, r: _two(mk(c, L, ck, r), 'psi'), lambda psi: psi.orthonormalize('left')))
 op('orthonormalize_right', inplace=('psi',))((lambda c, L, ck, r: _two(mk(c, L, ck, r), 'psi'), lambda psi: psi.orthonormalize('right')))
@@ -524,4 +563,6 @@ def spaces(tier, seed):
         Space('two_step_chains', core.chunked(_chain_cases(), 6), run_case=run_chain_case, sig=sig,
               bounds={'binary_ops': CHAIN_OPS, 'start': ['psi', 'H'], 'L': [1, 2, 3]}),
         _world_space(tier),
+        Space('constructor_calls', core.chunked(_ctor_cases(), 2), run_case=run_ctor_case, sig=sig,
+              bounds={'constructors': sorted(CTOR_CALLS), 'L': [1, 2, 3], 'what': 'call, mutate the result in every way, call again: the second result must be bit-identical to the first unmodified one'}),
     ]
